@@ -417,13 +417,13 @@ func (b *bitstream) ReadAnnotations(symbolTable SymbolTable) ([]SymbolToken, err
 			b.pos - lengthOfAnnotFieldLength}
 	}
 
-	remainingAnnotationLength := b.len - lengthOfAnnotFieldLength - annotFieldLength
-
-	if remainingAnnotationLength <= 0 {
+	// Unsigned arithmetic: compare before subtracting.
+	if annotFieldLength >= b.len-lengthOfAnnotFieldLength {
 		// The size of the annotations is larger than the remaining free space inside the
 		// annotation container.
 		return nil, &SyntaxError{"malformed annotation", b.pos - lengthOfAnnotFieldLength}
 	}
+	remainingAnnotationLength := b.len - lengthOfAnnotFieldLength - annotFieldLength
 
 	var as []SymbolToken
 	for annotFieldLength > 0 {
